@@ -118,7 +118,8 @@ int pem_read(FILE *fp, const char *name, uint8_t *data, size_t *datalen, size_t 
 
 		// decode into a local buffer: the text may be malformed and must not overrun the caller's maxlen bytes
 		{
-			uint8_t buf[80];
+			// one line (up to sizeof(line) - 1 characters) plus up to 63 characters pending in the context
+			uint8_t buf[sizeof(line) + 64];
 			if (base64_decode_update(&ctx, (uint8_t *)line, (int)strlen(line), buf, &len) < 0) {
 				error_print();
 				return -1;
